@@ -76,7 +76,7 @@ int main(int argc, char** argv) {
     // receive until everything planned for this host has arrived (head-of-line blocking between tags of one
     // source means all tags must be polled)
     size_t got = 0;
-    auto deadline = std::chrono::steady_clock::now() + std::chrono::seconds(600);
+    auto deadline = std::chrono::steady_clock::now() + std::chrono::seconds(240);
     bool flushed = false;
     while (got < expect) {
       if (!flushed && done == (int)senders) { net.flush(); flushed = true; }
